@@ -1,87 +1,118 @@
-"""Sidecar contracts (PATH obligations): run/map lifecycle templates (C08, C11, C12, C15, C16)."""
+"""Sidecar contracts (PATH obligations): run/map lifecycle templates (C08, C10, C11, C12, C14, C16)."""
 # ruff: noqa
 import z3
 from pyvc.values import ANY, STR, INT, BOOL, NONE_T, SEQ, DICT, SET, OBJ, OPT, FIXTUP
-from contracts.tracelib import before_effects, bracket, calls, names, raised_by
+from contracts.tracelib import before_effects, bracket, calls, names, raised_by, _nm
 
 TS = "runners/_shared/template_sync.py:"
+TA = "runners/_shared/template_async.py:"
 GRAPH = OBJ("Graph")
 
 RUN_VALIDATORS = {"normalize_inputs", "validate_runner_compatibility", "validate_node_types", "resolve_runtime_selected", "validate_inputs", "_validate_on_missing", "_validate_error_handling"}
 MAP_VALIDATORS = {"normalize_inputs", "validate_runner_compatibility", "validate_node_types", "validate_map_compatible", "_validate_error_handling", "generate_map_inputs"}
-SYNC_EFFECTS = {"_create_dispatcher", "_emit_run_start_sync", "_execute_graph_impl", "_emit_run_end_sync", "_shutdown_dispatcher_sync", "run"}
 
 
-def _runend_status(tr, outcome, *rest):
-    """RunEnd carries an error exactly on the paths where the caller observes a failure (raise or FAILED result)."""
-    ends = calls(tr, "_emit_run_end_sync")
-    if not ends:
+def lifecycle(start, end, execute, shutdown, create="_create_dispatcher", validators=RUN_VALIDATORS, extra_effects=()):
+    effects = {create, start, end, shutdown, *execute, *extra_effects}
+
+    def runend_status(tr, outcome, *rest):
+        """RunEnd carries an error exactly on the paths where the caller observes a failure (raise or FAILED result)."""
+        ends = calls(tr, end)
+        if not ends:
+            return True
+        has_err = "error" in ends[-1][2].get("kwargs", {})
+        failed = outcome.startswith("raise") or any(e[0] == "new" and e[1] == "RunResult" and "FAILED" in e[2].get("status", "") for e in tr)
+        return has_err == failed
+
+    def failed_filter_ignores_missing(tr, outcome, *rest):
+        """After a failure the partial values are filtered with the default on_missing (so a FAILED/PAUSED result is always returned)."""
+        ends = [i for i, e in enumerate(tr) if e[0] == "call" and _nm(e[1]) == end and "error" in e[2].get("kwargs", {})]
+        if not ends:
+            return True
+        for e in tr[ends[0]:]:
+            if e[0] == "call" and _nm(e[1]) == "filter_outputs":
+                om = e[2].get("on_missing")
+                if om is None or "str:ignore" not in str(getattr(om, "t", om)):
+                    return False
         return True
-    has_err = "error" in ends[-1][2].get("kwargs", {})
-    failed = outcome.startswith("raise") or any(e[0] == "new" and e[1] == "RunResult" and "FAILED" in e[2].get("status", "") for e in tr)
-    return has_err == failed
 
+    def completed_filter_before_runend(tr, outcome, *rest):
+        """On the success path outputs are filtered BEFORE RunEnd(completed) is emitted (a failing filter yields one failed RunEnd)."""
+        ends = [i for i, e in enumerate(tr) if e[0] == "call" and _nm(e[1]) == end and "error" not in e[2].get("kwargs", {})]
+        fo = [i for i, e in enumerate(tr) if e[0] == "call" and _nm(e[1]) == "filter_outputs"]
+        return not ends or (bool(fo) and fo[0] < ends[0])
 
-def _failed_filter_ignores_missing(tr, outcome, *rest):
-    """On the failure path the partial values are filtered with the default on_missing (a FAILED result is always returned)."""
-    ends = [i for i, e in enumerate(tr) if e[0] == "call" and e[1].lstrip(".") == "_emit_run_end_sync" and "error" in e[2].get("kwargs", {})]
-    if not ends:
+    def continue_mode_returns(tr, outcome, raised, env, ex, s):
+        """Once the run has started, an exception escapes only in raise mode (continue mode returns a FAILED result)."""
+        from pyvc.engine import eq, lift
+        if not outcome.startswith("raise") or not calls(tr, start):
+            return True
+        return eq(env["error_handling"], lift("raise"), s)
+
+    def surfaced_is_cause(tr, outcome, raised, env, ex, s):
+        """C11: in raise mode the exception that escapes is the failing node's own exception object: for the runner's
+        internal wrapper (ExecutionError) its __cause__, otherwise the caught exception itself."""
+        from pyvc import smt
+        from pyvc.engine import truth
+        from pyvc.values import Val
+        if not outcome.startswith("raise") or not calls(tr, start) or "e" not in env or raised.exc is None:
+            return True
+        e = env["e"].t
+        cause = smt.attr_func("__cause__")(e)
+        is_wrap = smt.inst_pred("ExecutionError")(e)
+        expected = z3.If(z3.And(is_wrap, truth(Val(cause, ANY), s)), cause, e)
+        return raised.exc.t == expected
+
+    def all_results_filtered(tr, outcome, *rest):
+        """C16: every RunResult (completed, failed, paused) takes its values from filter_outputs (or is empty)."""
+        for i, e in enumerate(tr):
+            if e[0] == "new" and e[1] == "RunResult":
+                v = e[2].get("values", "")
+                if not (v.startswith("res!") or v.startswith("dict!")):
+                    return False
         return True
-    for e in tr[ends[0]:]:
-        if e[0] == "call" and e[1] == "filter_outputs":
-            om = e[2].get("on_missing")
-            if om is None or "str:ignore" not in str(getattr(om, "t", om)):
-                return False
-    return True
+
+    return [
+        {"name": "C08 validate-before-effects: every validator precedes dispatcher creation / emission / execution; a rejected call has no effect", "check": before_effects(validators, effects)},
+        {"name": "C12 RunStart .. exactly one RunEnd on every terminated path; execution between them; shutdown last, at most once", "check": bracket(start, end, body=set(execute), shutdown=shutdown, paused_ok=True)},
+        {"name": "C12 RunEnd status equals what the caller observes", "check": runend_status},
+        {"name": "C11/C16 FAILED result: partial values filtered with default on_missing", "check": failed_filter_ignores_missing},
+        {"name": "C12 outputs filtered before RunEnd(completed)", "check": completed_filter_before_runend},
+        {"name": "C11 continue mode never raises after RunStart", "check": continue_mode_returns},
+        {"name": "C11 raise mode surfaces the node's own exception object (cause of the wrapper), unwrapped", "check": surfaced_is_cause},
+        {"name": "C16 values of every result come from filter_outputs", "check": all_results_filtered},
+    ]
 
 
-def _completed_filter_before_runend(tr, outcome, *rest):
-    """On the success path outputs are filtered BEFORE RunEnd(completed) is emitted (a failing filter must yield one failed RunEnd)."""
-    ns = names(tr)
-    ends = [i for i, e in enumerate(tr) if e[0] == "call" and e[1].lstrip(".") == "_emit_run_end_sync" and "error" not in e[2].get("kwargs", {})]
-    fo = [i for i, e in enumerate(tr) if e[0] == "call" and e[1] == "filter_outputs"]
-    return not ends or (fo and fo[0] < ends[0])
-
-
-def _continue_mode_returns(tr, outcome, raised, env, ex, s):
-    """Once the run has started, an exception escapes only in raise mode (continue mode returns a FAILED result)."""
-    from pyvc.engine import eq, lift
-    if not outcome.startswith("raise") or not calls(tr, "_emit_run_start_sync"):
-        return True
-    return eq(env["error_handling"], lift("raise"), s)
-
-
-def _surfaced_is_cause(tr, outcome, raised, env, ex, s):
-    """C11: in raise mode the exception that escapes is the failing node's own exception object: for the runner's
-    internal wrapper (ExecutionError) its __cause__, otherwise the caught exception itself."""
-    from pyvc import smt
-    from pyvc.engine import to_v
-    if not outcome.startswith("raise") or not calls(tr, "_emit_run_start_sync") or "e" not in env or raised.exc is None:
-        return True
-    e = env["e"].t
-    cause = smt.attr_func("__cause__")(e)
-    is_wrap = smt.inst_pred("ExecutionError")(e)
-    from pyvc.engine import truth
-    from pyvc.values import Val, ANY as _ANY
-    expected = z3.If(z3.And(is_wrap, truth(Val(cause, _ANY), s)), cause, e)
-    return raised.exc.t == expected
-
+RUN_PARAMS = {"graph": GRAPH, "values": OPT(DICT(STR, ANY)), "select": ANY, "on_missing": STR, "on_internal_override": STR, "entrypoint": OPT(STR), "max_iterations": OPT(INT),
+              "error_handling": STR, "event_processors": ANY, "_parent_span_id": OPT(STR), "input_values": DICT(STR, ANY)}
 
 CONTRACTS = {
     TS + "SyncRunnerTemplate.run": dict(
         props=["C08", "C11", "C12", "C16"],
-        params={"self": OBJ("SyncRunnerTemplate"), "graph": GRAPH, "values": OPT(DICT(STR, ANY)), "select": ANY, "on_missing": STR, "on_internal_override": STR,
-                "entrypoint": OPT(STR), "max_iterations": OPT(INT), "error_handling": STR, "event_processors": ANY, "_parent_span_id": OPT(STR), "input_values": DICT(STR, ANY)},
+        params=dict(RUN_PARAMS, self=OBJ("SyncRunnerTemplate")),
         returns=OBJ("RunResult"),
         may_raise={"BaseException": True},
+        trace=lifecycle("_emit_run_start_sync", "_emit_run_end_sync", ["_execute_graph_impl"], "_shutdown_dispatcher_sync"),
+    ),
+    TA + "AsyncRunnerTemplate.run": dict(
+        props=["C08", "C11", "C12", "C14", "C16"],
+        params=dict(RUN_PARAMS, self=OBJ("AsyncRunnerTemplate"), max_concurrency=OPT(INT)),
+        returns=OBJ("RunResult"),
+        may_raise={"BaseException": True},
+        trace=lifecycle("_emit_run_start_async", "_emit_run_end_async", ["_execute_graph_impl_async"], "_shutdown_dispatcher_async"),
+    ),
+    TS + "SyncRunnerTemplate.map": dict(
+        props=["C08", "C10", "C12"],
+        params={"self": OBJ("SyncRunnerTemplate"), "graph": GRAPH, "values": OPT(DICT(STR, ANY)), "map_over": ANY, "map_mode": STR, "clone": ANY, "select": ANY, "on_missing": STR,
+                "on_internal_override": STR, "entrypoint": OPT(STR), "error_handling": STR, "event_processors": ANY, "_parent_span_id": OPT(STR), "input_values": DICT(STR, ANY)},
+        returns=SEQ(OBJ("RunResult")),
+        may_raise={"BaseException": True},
         trace=[
-            {"name": "C08 validate-before-effects: every validator precedes dispatcher creation / emission / execution; a rejected call has no effect", "check": before_effects(RUN_VALIDATORS, SYNC_EFFECTS)},
-            {"name": "C12 RunStart .. exactly one RunEnd on every path; execution between them; shutdown last, at most once", "check": bracket("_emit_run_start_sync", "_emit_run_end_sync", body={"_execute_graph_impl"}, shutdown="_shutdown_dispatcher_sync")},
-            {"name": "C12 RunEnd status equals what the caller observes", "check": _runend_status},
-            {"name": "C11/C16 FAILED result: partial values filtered with default on_missing", "check": _failed_filter_ignores_missing},
-            {"name": "C12 outputs filtered before RunEnd(completed)", "check": _completed_filter_before_runend},
-            {"name": "C11 continue mode never raises after RunStart", "check": _continue_mode_returns},
-            {"name": "C11 raise mode surfaces the node's own exception object (cause of the wrapper), unwrapped", "check": _surfaced_is_cause},
+            {"name": "C08 map: validators and input expansion precede every effect; a rejected or empty map has no effect",
+             "check": before_effects(MAP_VALIDATORS, {"_create_dispatcher", "_emit_run_start_sync", "_emit_run_end_sync", "_shutdown_dispatcher_sync", "run"})},
+            {"name": "C12 map: RunStart(is_map) .. exactly one RunEnd on every path; item runs between; shutdown last", "check": bracket("_emit_run_start_sync", "_emit_run_end_sync", body={"run"}, shutdown="_shutdown_dispatcher_sync")},
         ],
+        loops=[{"invariant": []}],
     ),
 }
